@@ -159,6 +159,10 @@ impl Db {
             Index::create_in_ram(schema)
         } else {
             let (index_rebuild, index) = open_index(&config)?;
+            #[cfg(anything_verif)]
+            if index_rebuild {
+                crate::verif_crash_point("index-created");
+            }
             rebuild = rebuild || index_rebuild;
             index
         };
@@ -199,6 +203,8 @@ impl Db {
 
             let mut writer = db.index.writer(50_000_000)?;
             writer.delete_all_documents()?;
+            #[cfg(anything_verif)]
+            crate::verif_crash_point("delete-all-buffered");
 
             for name in config.assets() {
                 if name == SOURCES_BIN_GZ {
@@ -208,11 +214,17 @@ impl Db {
                 if let Some(content) = config.get_asset(name.as_ref()) {
                     db.load_bytes(&mut writer, content.data.as_ref())
                         .with_context(|| anyhow!("loading: {}", name))?;
+                    #[cfg(anything_verif)]
+                    crate::verif_crash_point("asset-buffered");
                 }
             }
 
             writer.commit()?;
+            #[cfg(anything_verif)]
+            crate::verif_crash_point("committed");
             db.reader.reload()?;
+            #[cfg(anything_verif)]
+            crate::verif_crash_point("reader-reloaded");
 
             config.meta.version = Some(config.this_version.to_owned());
             config.meta.database_hash = Some(hash);
@@ -287,14 +299,20 @@ fn open_index(config: &crate::config::Config) -> Result<(bool, Index)> {
     // leaves an empty index that the next run trusts.
     if config.meta_path.is_file() {
         fs::remove_file(&config.meta_path)?;
+        #[cfg(anything_verif)]
+        crate::verif_crash_point("meta-removed");
     }
 
     if config.index_path.is_dir() {
         log::info!("removing index: {}", config.index_path.display());
         fs::remove_dir_all(&config.index_path)?;
+        #[cfg(anything_verif)]
+        crate::verif_crash_point("index-dir-removed");
     }
 
     fs::create_dir_all(&config.index_path)?;
+    #[cfg(anything_verif)]
+    crate::verif_crash_point("index-dir-created");
     let schema = build_schema();
     Ok((true, Index::create_in_dir(&config.index_path, schema)?))
 }
